@@ -189,23 +189,21 @@ theorem loopBody_stackOk (k) (hk : KeepsStack k) : KeepsStack (loopBody k) := by
     exact ⟨rfl, finish_stackOk _ _ _ h1 hf⟩
   · next m1 heq =>
     have h1 : StackOk s.cfg m1 := by rw [heq] at he; exact he
-    obtain ⟨it, _, h⟩ := bind_eq_ok h
-    simp only [] at h
     split at h
     · cases h
     · obtain ⟨⟨res, m2⟩, hev, h⟩ := bind_eq_ok h
       have h2 := evaluateOneOperation_stackOk _ _ _ _ h1 hev
       cases res with
-      | piece => exact hk { s with m := m2, iteration := it, decodes := s.decodes + 1 } r s' h2 h
+      | piece => exact hk { s with m := m2, iteration := saturatingInc s.iteration, decodes := s.decodes + 1 } r s' h2 h
       | incomplete =>
         simp only [afterOp] at h
         split at h
         · cases h
-        · exact hk { s with m := (endOfExpression m2).2, iteration := it, decodes := s.decodes + 1 } r s'
+        · exact hk { s with m := (endOfExpression m2).2, iteration := saturatingInc s.iteration, decodes := s.decodes + 1 } r s'
             (fun n hn => by rw [endOfExpression_stack]; exact h2 n hn) h
       | complete loc =>
         obtain ⟨⟨m3, extra⟩, hac, h⟩ := bind_eq_ok h
-        exact hk { s with m := m3, iteration := it, decodes := s.decodes + 1 + (if extra then 1 else 0) } r s'
+        exact hk { s with m := m3, iteration := saturatingInc s.iteration, decodes := s.decodes + 1 + (if extra then 1 else 0) } r s'
           (afterComplete_stackOk _ _ _ _ _ h2 hac) h
       | waiting w rq => cases h; exact ⟨rfl, h2⟩
 
